@@ -292,6 +292,13 @@ def load_findings(pid):
 _FN = None
 
 
+class ImplementationCrash(Exception):
+    """The process driving the implementation died (no Python exception): an observation about the implementation."""
+    def __init__(self, recipe):
+        Exception.__init__(self, "process died")
+        self.recipe = recipe
+
+
 def _call(x):
     """Top-level trampoline (picklable); harness exceptions are returned, not raised."""
     try:
@@ -314,9 +321,29 @@ def pool_map(fn, items, procs=None, chunksize=None):
     if procs <= 1:
         out = [_call(x) for x in items]
     else:
+        # a worker that dies while it drives the implementation (a crash of the interpreter inside library code: a segmentation
+        # fault in a compiled routine handed memory it must not touch) would leave multiprocessing.Pool waiting for ever; the
+        # executor reports it, the items are then driven one by one in processes of their own to find the one that kills, and
+        # that is reported as a violation (ImplementationCrash) - never a hang
+        from concurrent.futures import ProcessPoolExecutor
+        from concurrent.futures.process import BrokenProcessPool
         ctx = mp.get_context("fork")
-        with ctx.Pool(procs) as p:
-            out = p.map(_call, items, chunksize=chunksize or max(1, len(items) // (procs * 4)))
+        try:
+            with ProcessPoolExecutor(max_workers=procs, mp_context=ctx) as ex:
+                out = list(ex.map(_call, items, chunksize=chunksize or max(1, len(items) // (procs * 4))))
+        except BrokenProcessPool:
+            culprit = None
+            for x in items[:4000]:
+                try:
+                    with ProcessPoolExecutor(max_workers=1, mp_context=ctx) as ex1:
+                        ex1.submit(_call, x).result(timeout=600)
+                except BrokenProcessPool:
+                    culprit = x
+                    break
+                except Exception:
+                    culprit = x
+                    break
+            raise ImplementationCrash(culprit)
     for t in out:
         if isinstance(t, dict) and "__harness_error__" in t:
             raise tlc.TLCFailure("harness driver failed:\n" + t["__harness_error__"])
@@ -346,6 +373,11 @@ def main(pid, run_fn, replay_fn=None):
             replay_fn(ctx, rec)
         else:
             run_fn(ctx, explain=a.explain) if a.explain else run_fn(ctx)
+        return ctx.finish()
+    except ImplementationCrash as e:
+        # the interpreter died inside library code while this input was driven: a verdict on the implementation, with evidence
+        ctx.violation("ImplementationCrash", {"meta": {"recipe": e.recipe, "nontrivial": True}})
+        ctx.notes["implementation_crash"] = "a worker process died (no Python exception) while driving the implementation; the remaining inputs of this run were not judged"
         return ctx.finish()
     except tlc.TLCFailure as e:
         print("MACHINERY-FAILURE %s: %s" % (pid, e))
